@@ -1,5 +1,60 @@
-import Secp.Hand.History
-/-! # C07 — placeholder: theorems are being added in this session -/
+import Secp.Proofs.ScalarEnc
+/-!
+# C07 — scalar encodings are canonical 32-byte big-endian; decoding rejects all else
+
+Model of the code: `Hand.Scalar.{encode,decode,decodeHex}` over the generated `FromMontgomery`, `Reduce`,
+`ToMontgomery` and the hand-modelled big-endian byte/limb conversion (`Hand.bytesToLimbs`, `Hand.limbsToBytes`,
+tied to the code by the families `SC.enc/SC.dec/S.reducebytes`). Byte strings are lists of naturals below 256
+(`IsBytes`); `os2ip`/`i2osp` are the RFC 8017 conversions.
+-/
 namespace C07
-theorem model_is_total : True := trivial
+open Spec
+
+/-- **Encode** is the 32-byte big-endian representation of the canonical value in `[0, n)` -/
+theorem encode_canonical (s : L4) (hs : sOk s) : Hand.Scalar.encode s = i2osp (sVal s).val 32 := sc_encode s hs
+
+/-- **Decode**, for every byte string: the empty input, every other length ≠ 32, and values `≥ n` are rejected
+with their distinct errors; a 32-byte string below `n` is accepted and the receiver then holds exactly that integer -/
+theorem decode_spec (r : L4) (b : Bytes) (hb : IsBytes b) :
+    (b.length = 0 → Hand.Scalar.decode r b = (some .nilScalar, r)) ∧
+    (b.length ≠ 0 → b.length ≠ 32 → Hand.Scalar.decode r b = (some .scalarLength, r)) ∧
+    (b.length = 32 → os2ip b < N →
+        (Hand.Scalar.decode r b).1 = none ∧ sOk (Hand.Scalar.decode r b).2 ∧
+        sVal (Hand.Scalar.decode r b).2 = ((os2ip b : Nat) : ZMod N)) ∧
+    (b.length = 32 → ¬ os2ip b < N → (Hand.Scalar.decode r b).1 = some .scalarTooBig) := sc_decode r b hb
+
+/-- acceptance is *exactly* "32 bytes encoding an integer below n" -/
+theorem decode_accepts_iff (r : L4) (b : Bytes) (hb : IsBytes b) :
+    (Hand.Scalar.decode r b).1 = none ↔ (b.length = 32 ∧ os2ip b < N) := by
+  obtain ⟨h0, h1, h2, h3⟩ := sc_decode r b hb
+  constructor
+  · intro h
+    by_cases l0 : b.length = 0
+    · rw [h0 l0] at h; exact absurd h (by simp)
+    · by_cases l32 : b.length = 32
+      · refine ⟨l32, ?_⟩
+        by_contra hge
+        rw [h3 l32 hge] at h; exact absurd h (by simp)
+      · rw [h1 l0 l32] at h; exact absurd h (by simp)
+  · rintro ⟨l32, hlt⟩; exact (h2 l32 hlt).1
+
+/-- `Decode(Encode(s)) = s` and `Encode(Decode(b)) = b` -/
+theorem decode_encode (r s : L4) (hs : sOk s) : Hand.Scalar.decode r (Hand.Scalar.encode s) = (none, s) :=
+  sc_decode_encode r s hs
+theorem encode_decode (r : L4) (b : Bytes) (hb : IsBytes b) (hlen : b.length = 32) (hlt : os2ip b < N) :
+    Hand.Scalar.encode (Hand.Scalar.decode r b).2 = b := sc_encode_decode r b hb hlen hlt
+
+theorem decodeHex_toHex (r : L4) (e : Bytes) (he : IsBytes e) :
+    Hand.Scalar.decodeHex r (toHex e) = Hand.Scalar.decode r e := by
+  unfold Hand.Scalar.decodeHex
+  rw [ofHex_toHex e he]
+
+/-- the hex variant agrees: `DecodeHex(Hex(s)) = s` (`Hex = hex(Encode)`, `DecodeHex = Decode ∘ unhex`) -/
+theorem decodeHex_hex (r s : L4) (hs : sOk s) :
+    Hand.Scalar.decodeHex r (toHex (Hand.Scalar.encode s)) = (none, s) :=
+  (decodeHex_toHex r (Hand.Scalar.encode s) (by rw [sc_encode s hs]; exact i2osp_isBytes _ _)).trans
+    (sc_decode_encode r s hs)
+
+example : sOk Hand.Scalar.minusOne := ⟨by decide, by decide⟩
+
 end C07
